@@ -116,6 +116,23 @@ def overlay_for(pid, cfg, bdir):
         repl[os.path.join(pkgdir, 'zz_verif_' + os.path.basename(h))] = os.path.join(ROOT, 'harness', h)
     for target, src in cfg.get('extra_overlay', {}).items():
         repl[os.path.join(REPO, target)] = os.path.join(ROOT, 'harness', src)
+    sc = cfg.get('srccopy')
+    if sc:
+        # verbatim copy of selected declarations of a source file into the (synthetic) package under test
+        exe = os.path.join(BUILD, 'srccopy')
+        with Lock('srccopy'):
+            if not os.path.exists(exe) or os.path.getmtime(exe) < os.path.getmtime(os.path.join(ROOT, 'tools/srccopy/main.go')):
+                rc, out, err, dt = sh(['go', 'build', '-o', exe, '.'], cwd=os.path.join(ROOT, 'tools/srccopy'), env=GOENV, timeout=600)
+        dst = os.path.join(bdir, 'zz_verif_srccopy.go')
+        cmd = [exe, '-src', os.path.join(REPO, sc['src']), '-pkg', cfg['pkgname'], '-decls', ','.join(sc['decls'])]
+        if sc.get('preamble'):
+            cmd += ['-preamble', os.path.join(ROOT, 'harness', sc['preamble'])]
+        rc, out, err, dt = sh(cmd, timeout=120)
+        with open(dst, 'w') as f:
+            f.write(out if rc == 0 else 'package %s\n\nfunc init() { srccopy_failed_%s }\n' % (cfg['pkgname'], 'see_stderr'))
+        if rc != 0:
+            sys.stderr.write('srccopy failed: %s\n' % err[-500:])
+        repl[os.path.join(pkgdir, 'zz_verif_srccopy.go')] = dst
     path = os.path.join(bdir, 'overlay.json')
     with open(path, 'w') as f:
         json.dump({'Replace': repl}, f, indent=1)
@@ -138,6 +155,8 @@ def build_harness(pid, cfg, bdir):
 def run_test(binp, pkgdir, name, env_extra, timeout):
     env = dict(GOENV)
     env.update(env_extra)
+    if not os.path.isdir(pkgdir):
+        pkgdir = os.path.dirname(binp)   # synthetic package (exists only in the overlay)
     return sh([binp, '-test.run', '^%s$' % name, '-test.count=1', '-test.timeout', '%ds' % (timeout + 60)],
               cwd=pkgdir, env=env, timeout=timeout + 90)
 
